@@ -35,7 +35,14 @@ def report_records(ck, cases, records, pid_note="", template_under_test=False):
         c = cases[rec["case"]]
         ck.evaluations += 1
         if rec.get("skipped"):
-            ck.notes.append("compiler panicked (C01): %s" % semrun.src_text(rec)[:200]) if len(ck.notes) < 20 else None
+            # the template is well-formed by construction (the specification gives it a tree): a compiler that panics on it
+            # yields no generated code at all, so the tree the property demands does not exist
+            pm = (rec.get("panic") or [{}])[0]
+            ck.report({"sig": "compiler-panic", "src": semrun.src_text(rec), "data": c["data"], "variant": str(rec["variant"]),
+                       "family": c.get("family"), "files": c["files"], "tree": c.get("tree"), "steps": c.get("steps"),
+                       "problem": {"what": "compiler-panic", "msg": pm.get("msg"), "loc": pm.get("loc")}},
+                      "the compiler panicked on a well-formed template (%s at %s): no generated code to render the specified tree\n%s" % (
+                          pm.get("msg"), pm.get("loc"), semrun.src_text(rec)))
             continue
         ck.traces += 1
         if has_binding(c["files"]):
